@@ -314,7 +314,11 @@ func (s *storage) bootstrap(config Config) (err error) {
 	verifPoint("bootstrap.appended")
 	s.commitLog(1)
 	verifPoint("bootstrap.flushed")
-	s.setTerm(1)
+	// a node that already took part in an election (it granted a vote or heard
+	// of a later term before it was bootstrapped) keeps its term and its vote
+	if s.term < config.Term {
+		s.setTerm(config.Term)
+	}
 	s.lastLogIndex, s.lastLogTerm = config.Index, config.Term
 	return nil
 }
